@@ -49,7 +49,7 @@ func VH_C13_reader_total() {
 	vrtAssert(!desc.IsOutside(), "registered")
 	vhNoPanic("decode-no-panic", func() {
 		r := messages.NewReader(data)
-		msg, err := messages.DeserializeRemotingMessage(vhCodec{}, r, desc)
+		msg, err := messages.DeserializeRemotingMessage(vhStrictCodec{}, r, desc)
 		if err == nil {
 			vrtReach("decoded-ok")
 			vrtAssert(msg != nil, "ok-implies-value")
@@ -67,7 +67,7 @@ func VH_C13_envelope_symbolic() {
 	data := vrtBytes(n)
 	vrtAllocBudget(vrtParam("budget", 65536))
 	vhNoPanic("decode-no-panic", func() {
-		_, _, _, _, _, msg, err := serialize.DecodeEnvelopWithRemoting(vhCodec{}, data)
+		_, _, _, _, _, msg, err := serialize.DecodeEnvelopWithRemoting(vhStrictCodec{}, data)
 		if err == nil {
 			vrtReach("decoded-ok")
 			vrtAssert(msg != nil, "ok-implies-value")
@@ -77,7 +77,7 @@ func VH_C13_envelope_symbolic() {
 	})
 	vhNoPanic("decode-no-panic", func() {
 		r := messages.NewReader(data)
-		_, err := r.ReadMessage(vhCodec{})
+		_, err := r.ReadMessage(vhStrictCodec{})
 		if err != nil {
 			vrtReach("readmessage-error")
 		}
@@ -111,7 +111,7 @@ func vhSampleEnvelope(kind int) vivid.Envelop {
 func VH_C13_envelope_mutations() {
 	kind := vrtParam("kind", 0)
 	env := vhSampleEnvelope(kind)
-	data, err := serialize.EncodeEnvelopWithRemoting(vhCodec{}, env)
+	data, err := serialize.EncodeEnvelopWithRemoting(vhStrictCodec{}, env)
 	vrtAssert(err == nil && len(data) > 0, "sample-encodes")
 	vrtAllocBudget(vrtParam("budget", 65536))
 	var in []byte
@@ -126,7 +126,7 @@ func VH_C13_envelope_mutations() {
 		vrtReach("corrupted")
 	}
 	vhNoPanic("decode-no-panic", func() {
-		_, _, _, _, _, _, err := serialize.DecodeEnvelopWithRemoting(vhCodec{}, in)
+		_, _, _, _, _, _, err := serialize.DecodeEnvelopWithRemoting(vhStrictCodec{}, in)
 		if err != nil {
 			vrtReach("decode-error")
 		} else {
@@ -195,4 +195,9 @@ func (vhStrictCodec) Encode(message any) ([]byte, error) {
 	return vhCodec{}.Encode(message)
 }
 
-func (vhStrictCodec) Decode(data []byte) (any, error) { return vhCodec{}.Decode(data) }
+func (vhStrictCodec) Decode(data []byte) (any, error) {
+	if len(data) > 0 && data[0] == 0 {
+		return nil, vivid.ErrorIllegalArgument // the strict codec has no encoding for "no message"
+	}
+	return vhCodec{}.Decode(data)
+}
